@@ -23,7 +23,7 @@ func init() {
 				"arguments. With R1-R4, for every device: delivered + held = recorded, by induction over the critical sections (each " +
 				"either adds one to held, moves held to in-flight, delivers in-flight, or adds in-flight back to held).",
 			NotCovered: "the induction over interleavings itself is a paper argument, not mechanised; the uploader's own behaviour.",
-			Rules: map[string]string{"C16-R14": "the error-class enums declared in backendpb and in metrics agree, and the metrics switches (panicking default) have a case for each value", "C16-R13": "request information attached to a context inside an accept/stream loop is allocated in that iteration; pool constructors build fresh objects", "C16-R12": "the periodic worker that uploads billing records, incl. the final upload on shutdown before the worker stops (shared rule, see C13-R11)", "C16-R11": "a request is served and billed once; the billed location is the one of the client's own address (tables shared with C09-R1 and C05-R5)", "C16-R1": "records only under mu", "C16-R2": "Refresh: upload what was reset, remerge iff failed",
+			Rules: map[string]string{"C16-RC": "class rules (error chains, shadowed results, character classes, crossed arguments, pool constructors, array pools, loop completeness, loop-carried buffers, replacing setters, complete clones, Grow arithmetic, pooled-buffer escape, sorted searches, fresh decode targets, per-iteration objects, whole-message copies, codec guards) over the packages this property rests on", "C16-R14": "the error-class enums declared in backendpb and in metrics agree, and the metrics switches (panicking default) have a case for each value", "C16-R13": "request information attached to a context inside an accept/stream loop is allocated in that iteration; pool constructors build fresh objects", "C16-R12": "the periodic worker that uploads billing records, incl. the final upload on shutdown before the worker stops (shared rule, see C13-R11)", "C16-R11": "a request is served and billed once; the billed location is the one of the client's own address (tables shared with C09-R1 and C05-R5)", "C16-R1": "records only under mu", "C16-R2": "Refresh: upload what was reset, remerge iff failed",
 				"C16-R3": "remerge: insert or add counts", "C16-R4": "Record: new=1, existing+1, metadata from arguments",
 				"C16-R6": "resetRecords hands out the old map and installs a fresh one on every path; recordToProtobuf copies count, device, country, ASN, protocol and time unchanged",
 				"C16-R8": "wiring: the recorder installed for the request path is the one the refresh worker flushes; that worker flushes once more on shutdown and is registered with the signal handler",
@@ -32,6 +32,7 @@ func init() {
 }
 
 func runC16(c *an.Ctx) {
+	classSweep(c, "C16")
 	c.Floor("C16-R12", 5)
 	refreshWorkerRules(c, "C16-R12")
 	dnssvcWiring(c, "C16-R10", func(dst, src string) bool {
